@@ -228,4 +228,56 @@ PROPS = {
                 "settlement disabled in a tenth), both drivers; every tenth case 2-6 racing withdrawals of one wallet",
         "trusted": [],
     },
+    "C04": {
+        "harness": "c04",
+        "imports": ["Base", "Nonce", "Auth", "Check04"],
+        "case_type": "c04_case",
+        "check": "c04_check",
+        "diag": "c04_diag",
+        "theories": ["theories/Base.v", "theories/Nonce.v", "theories/NonceProofs.v", "theories/Auth.v", "theories/AuthProofs.v"],
+        "check_theories": ["theories/Check04.v"],
+        "level_text": "Coq theorems over a symbolic model of request signing and of the verification step that guards every "
+                      "signed endpoint: the step accepts only a signature made by the key of the named identity over "
+                      "exactly the endpoint's own method name, that identity, that nonce and those parameters (or, for "
+                      "vipnode_update, the deprecated parameter format); any altered component, any other key and any "
+                      "malformed signature is refused; a correctly signed fresh request is accepted; any effect of a "
+                      "guarded endpoint implies a valid signature; at the byte level the method name and the argument "
+                      "array are uniquely recoverable from the signed string and node-style and wallet-style payloads "
+                      "never coincide. The guarded model is tied to the real endpoints by sending them, with real "
+                      "secp256k1/Keccak signatures, every alteration kind for each of the seven endpoints and comparing "
+                      "accept/refuse and the absence of any effect with the model's decision.",
+        "level_note": "Trusted: Coq kernel; cryptographic strength (unforgeability, hash collision resistance) is replaced "
+                      "by the symbolic model; encoding/json renders distinct parameter values distinctly; the signature's "
+                      "recovery byte is not part of the signed value (alterations target R and S); the model is guarded "
+                      "by construction and its agreement with the code is established by the correspondence (bounded).",
+        "technique": "Coq proof over a symbolic (Dolev-Yao style) signature model + vm_compute correspondence with real crypto",
+        "rule": "per case 35 requests: each of the 7 endpoints x 5 requests (one valid, four drawn from: signed over "
+                "another method / identity / nonce+-1 / changed parameter, other key, flipped R/S bit, empty, short, "
+                "badly encoded, truncated signature, other signing style, stale nonce, replay, deprecated update "
+                "format), both drivers; distinct by rendered term",
+        "trusted": [],
+    },
+    "C06": {
+        "harness": "c06",
+        "imports": ["Base", "Nonce", "Auth", "Check04"],
+        "case_type": "c04_case",
+        "check": "c04_check",
+        "diag": "c04_diag",
+        "theories": ["theories/Base.v", "theories/Nonce.v", "theories/NonceProofs.v", "theories/Auth.v", "theories/AuthProofs.v"],
+        "check_theories": ["theories/Check04.v"],
+        "level_text": "Coq theorems: a request refused by the verification step — bad signature, wrong key, malformed "
+                      "signature, stale or repeated nonce — leaves the pool state, the nonce table and the hosts "
+                      "untouched for every guarded endpoint body, hence after a forged request carrying a larger nonce "
+                      "the owner's request with a smaller fresh nonce is still accepted; the variant helper that saves "
+                      "the nonce first is shown not to have this property (the model can express the failure). Tied to "
+                      "the code by valid sessions with refused requests interleaved at random positions on the real pool "
+                      "and payment services: full state digest (Stats, every node, its peers and balance, every wallet, "
+                      "NumRemotes) and the calls seen by fake hosts before vs after, then the owner's follow-up request.",
+        "level_note": "Trusted: as C04; the digest covers everything reachable through the store and pool APIs.",
+        "technique": "Coq proof (nonce table unchanged on every refusal path) + vm_compute correspondence with real crypto",
+        "rule": "sessions of 10-19 requests on a live pool (2 hosts, 2 clients, linked wallet with credit), half of "
+                "them refused (12 refusal kinds), a garbage request with a nonce one minute ahead followed by the "
+                "owner's ordinary request after half of the refusals, both drivers; distinct by rendered term",
+        "trusted": [],
+    },
 }
